@@ -257,24 +257,31 @@ class StepRig:
         idle_since: Optional[float] = None
         it = 0
         last_peer_byte = t_start = time.time()
+        self.until_reason = 'iterations'     # why the last until() returned: pred | idle | stall | wall | iterations
         try:
             while it < max_iter:
                 moved = 0
                 for p in pump:
                     moved += p.pump()
                 if pred():
+                    self.until_reason = 'pred'
                     return True
                 self.step()
                 it += 1
+                if getattr(self, '_external_progress', False):
+                    moved += 1          # pred() itself moved bytes (a deliberately slow reader pumped by the caller)
+                    self._external_progress = False
                 if moved:
                     last_peer_byte = time.time()
                 if it % 64 == 0:
                     now = time.time()
                     if now - t_start > max_wall:
+                        self.until_reason = 'wall'
                         break       # bytes keep flowing but pred() stays false (e.g. an endless stream): give up
                     if now - last_peer_byte > max_stall:
                         # the proxy keeps itself busy (socket calls every iteration) but no byte has reached any
                         # pumped peer for max_stall seconds: pred() is not going to become true
+                        self.until_reason = 'stall'
                         break
                 if moved or self.idle_streak == 0:
                     idle_since = None
@@ -284,6 +291,7 @@ class StepRig:
                     if idle_since is None:
                         idle_since = now
                     elif now - idle_since > idle_timeout:
+                        self.until_reason = 'idle'
                         break
                     self.sel.hold = 0.001       # let the kernel deliver; returns early on readiness
         finally:
@@ -291,6 +299,10 @@ class StepRig:
         for p in pump:
             p.pump()
         return pred()
+
+    def note_progress(self) -> None:
+        """Called from inside a pred() that moves bytes itself, so that until() does not mistake the wait for idleness."""
+        self._external_progress = True
 
     # ---- connections ----------------------------------------------------
     def add_client(self, transport: str = 'unix', rcvbuf: Optional[int] = None, sndbuf: Optional[int] = None,
